@@ -55,7 +55,8 @@ ASSUMPTIONS = [
     "for reset_index=True the root is the first row (the documented layout)",
 ]
 REQUIRED = ["grammar_reads", "rows_compared", "comments_compared", "ignored_field_warnings",
-            "texts_with_the_writers_column_banner",
+            "texts_with_the_writers_column_banner", "texts_with_block_sized_row_counts",
+            "population_files_with_undecodable_bytes",
             "extra_cols_compared", "faults_injected", "faults_raised", "bytes_faults_injected",
             "sorted_reads", "population_reads", "src_text", "src_bytes", "src_path",
             "entry_read_swc", "entry_from_swc", "ids_beyond_2_53", "lone_cr_line_ends", "root_without_smallest_id",
@@ -107,11 +108,13 @@ def _ws(rng):
 
 def gen_doc(seed: int, *, arbitrary_ids: bool = False, max_rows: int = 40, charset="utf-8",
             request_all: bool = True, big_ids: bool = False, lone_cr: bool = False,
-            root_not_min: bool = False):
+            root_not_min: bool = False, exact_rows: int = 0):
     """Draw a table and a rendering of it. Returns a dict with rows / lines / comments."""
     rng = np.random.default_rng(seed)
     u = rng.random()
     n = int(rng.integers(1, 8)) if u < 0.3 else int(rng.integers(2, max_rows + 1))
+    if exact_rows:
+        n = int(exact_rows)
     pid = [-1] + [int(rng.integers(0, i)) for i in range(1, n)]
     if arbitrary_ids:
         ids = rng.choice(np.arange(0, 20 * n + 50), size=n, replace=False).tolist()
@@ -286,7 +289,10 @@ def check_grammar(ctx, case, tmp):
     cr = bool(case.get("lone_cr")) and o["kind"] != "text"
     doc = gen_doc(case["seed"], max_rows=case.get("max_rows", 40),
                   charset=_charset(case["opts"]), big_ids=big, lone_cr=cr,
-                  root_not_min=bool(case.get("root_not_min")))
+                  root_not_min=bool(case.get("root_not_min")),
+                  exact_rows=int(case.get("exact_rows", 0)))
+    if case.get("exact_rows"):
+        ctx.count("texts_with_block_sized_row_counts")
     if case.get("root_not_min"):
         ctx.count("root_without_smallest_id")
     if big:
@@ -510,6 +516,17 @@ def check_population(ctx, case, tmp):
         if j == bad:
             _, t = fault_line(rng, doc)
             lines.insert(int(rng.integers(0, len(lines) + 1)), ("fault", t, None))
+        if j == bad and case["seed"] % 3 == 0:
+            # not a malformed line but bytes that are not utf-8 (in a comment, or a 0xA0 between
+            # two fields), in a population opened without naming an encoding
+            data = render(doc, list(doc["lines"])).encode("utf-8")
+            cut = data.find(b"\n") + 1
+            inj = b"# caf\xe9 \xb5m\n" if case["seed"] % 2 else b"1 1 0\xa00 0 1 -1\n"
+            with open(os.path.join(d, f"t{j}.swc"), "wb") as f:
+                f.write(data[:cut] + inj + data[cut:])
+            ctx.count("population_files_with_undecodable_bytes")
+            ns[f"t{j}.swc"] = doc["n"]
+            continue
         with open(os.path.join(d, f"t{j}.swc"), "w", encoding="utf-8") as f:
             f.write(render(doc, lines))
         ns[f"t{j}.swc"] = doc["n"]
@@ -628,6 +645,24 @@ def run(ctx):
                 case = {"kind": "population", "seed": seed}
                 ctx.case(case, klass="population")
                 execute(ctx, case)
+        # data-row counts on / next to multiples of 4096 and 8192 (this shard's share), and
+        # populations holding one file with undecodable bytes, opened without naming an encoding
+        sizes = [4095, 4096, 4097, 8191, 8192, 8193, 16384, 12288] + ([] if ctx.quick else
+                                                                      [24576, 32768, 65536])
+        for j, nrows in enumerate(sizes):
+            if j % ctx.nshards != ctx.shard:
+                continue
+            case = {"kind": "grammar", "seed": 77 + j, "exact_rows": nrows, "big_ids": False,
+                    "lone_cr": False, "root_not_min": False,
+                    "opts": {"reset_index": bool(j % 2), "encoding": "utf-8",
+                             "kind": ["text", "bytes", "path"][j % 3],
+                             "entry": ["read_swc", "from_swc"][j % 2]}}
+            ctx.case(case, klass="grammar/block-sized")
+            execute(ctx, case)
+        for j in (0, 1):
+            case = {"kind": "population", "seed": 3 * (1000 + 2 * ctx.shard + j)}
+            ctx.case(case, klass="population")
+            execute(ctx, case)
     ctx.count("tap_parse_swc_raise", rt.raises["parse_swc"])
     ctx.count("tap_parse_swc_return", rt.returns["parse_swc"])
     exits = rt.records["exit"]
